@@ -18,8 +18,9 @@ pub enum Case {
     /// tableau extraction: x0 = xs/8, h = sign * 2^hk
     /// `clip`: first_step = 2h so that the step is clipped to land on xend = x0 + h;
     /// `two`: two consecutive steps (the second must apply the same weights, starting from the
-    /// derivative at the new point); `dense`: the low-level solver's dense_output flag
-    Tableau { method: Meth, xs: i32, hk: i32, neg: bool, #[serde(default)] clip: bool, #[serde(default)] two: bool, #[serde(default = "yes")] dense: bool },
+    /// derivative at the new point); `dense`: the low-level solver's dense_output flag; `nocb`: the solver is
+    /// called without a SolOut callback (`None`)
+    Tableau { method: Meth, xs: i32, hk: i32, neg: bool, #[serde(default)] clip: bool, #[serde(default)] two: bool, #[serde(default = "yes")] dense: bool, #[serde(default)] nocb: bool },
     /// local error slope on a closed-form problem
     Slope { prob: ProbSpec, x0: f64, back: bool, method: Meth, analytic_jac: bool },
     /// one Radau step on y' = lambda y, z = h*lambda = (re, im)
@@ -107,6 +108,10 @@ impl ivp::solout::SolOut for Nop {
 }
 
 pub fn extract(m: Meth, x0: f64, h: f64, clip: bool, two: bool, dense: bool) -> Result<Tableau, String> {
+    extract_cb(m, x0, h, clip, two, dense, false)
+}
+
+pub fn extract_cb(m: Meth, x0: f64, h: f64, clip: bool, two: bool, dense: bool, nocb: bool) -> Result<Tableau, String> {
     let (s, _) = shape(m);
     let per = calls_per_step(m, dense);
     // step 1 makes `per` calls (incl. the initial derivative); step 2 re-uses the new-point
@@ -119,7 +124,7 @@ pub fn extract(m: Meth, x0: f64, h: f64, clip: bool, two: bool, dense: bool) -> 
     let nsteps = if two { 2.0 } else { 1.0 };
     let lo = LowOpts { first_step: Some(if clip { 2.0 * h } else { h }), max_step: if two { Some(h.abs()) } else { None }, dense: Some(dense), identity_mass: true, ..Default::default() };
     let mut so = Nop;
-    let r = guarded(|| solve_low(m, &instr, x0, x0 + nsteps * h, &y0, &Tol::S(0.0), &Tol::S(1e300), &lo, &mut so))?;
+    let r = guarded(|| solve_low_opt(m, &instr, x0, x0 + nsteps * h, &y0, &Tol::S(0.0), &Tol::S(1e300), &lo, if nocb { None } else { Some(&mut so) }))?;
     let r = r?;
     if r.status != Status::Success {
         return Err(format!("extraction run ended with {}", status_name(r.status)));
@@ -177,12 +182,12 @@ pub fn extract(m: Meth, x0: f64, h: f64, clip: bool, two: bool, dense: bool) -> 
     Ok(Tableau { s, a, b, c, ncalls: calls.len() })
 }
 
-fn check_tableau(m: Meth, xs: i32, hk: i32, neg: bool, clip: bool, two: bool, dense: bool) -> Outcome {
+fn check_tableau(m: Meth, xs: i32, hk: i32, neg: bool, clip: bool, two: bool, dense: bool, nocb: bool) -> Outcome {
     let x0 = xs as f64 / 8.0;
     let h = if neg { -1.0 } else { 1.0 } * 2f64.powi(hk);
-    let t = match extract(m, x0, h, clip, two, dense) {
+    let t = match extract_cb(m, x0, h, clip, two, dense, nocb) {
         Ok(t) => t,
-        Err(e) => return Outcome::viol(format!("{} (x0={}, h={}, clipped={}, two steps={}, dense_output={}): {}", m.name(), x0, h, clip, two, dense, e)),
+        Err(e) => return Outcome::viol(format!("{} (x0={}, h={}, clipped={}, two steps={}, dense_output={}, callback={}): {}", m.name(), x0, h, clip, two, dense, !nocb, e)),
     };
     // reference extraction at x0 = 0, h = 1: the weights must not depend on x0, h
     let t0 = match extract(m, 0.0, 1.0, false, false, true) {
@@ -711,7 +716,7 @@ fn check_scaling(m: Meth, a: f64, b: f64, theta: f64, x0: f64, back: bool) -> Ou
 
 pub fn check(c: &Case) -> Outcome {
     match c {
-        Case::Tableau { method, xs, hk, neg, clip, two, dense } => check_tableau(*method, *xs, *hk, *neg, *clip, *two, *dense),
+        Case::Tableau { method, xs, hk, neg, clip, two, dense, nocb } => check_tableau(*method, *xs, *hk, *neg, *clip, *two, *dense, *nocb),
         Case::Slope { prob, x0, back, method, analytic_jac } => check_slope(prob, *x0, *back, *method, *analytic_jac),
         Case::Pade { re, im, h, x0, back, u0 } => check_pade(*re, *im, *h, *x0, *back, *u0),
         Case::PadeRun { re, im, mult, e, x0, back, u0 } => check_pade_run(*re, *im, *mult, *e, *x0, *back, *u0),
@@ -727,7 +732,7 @@ pub fn strategy() -> BoxedStrategy<Case> {
     let emb = prop_oneof![Just(Meth::RK23), Just(Meth::DOPRI5), Just(Meth::DOP853)];
     let five = prop_oneof![Just(Meth::RK4), Just(Meth::RK23), Just(Meth::DOPRI5), Just(Meth::DOP853), Just(Meth::RADAU)];
     prop_oneof![
-        2 => (expl, -800i32..800, -8i32..=3, any::<bool>(), any::<bool>(), any::<bool>(), any::<bool>()).prop_map(|(method, xs, hk, neg, clip, two, dense)| Case::Tableau { method, xs, hk, neg, clip: clip && !two, two, dense }),
+        2 => (expl, -800i32..800, -8i32..=3, any::<bool>(), any::<bool>(), any::<bool>(), any::<bool>(), proptest::bool::weighted(0.3)).prop_map(|(method, xs, hk, neg, clip, two, dense, nocb)| Case::Tableau { method, xs, hk, neg, clip: clip && !two, two, dense, nocb }),
         6 => (linear_spec(3, false, 0.5, 3.0), fr(-2.0, 2.0), any::<bool>(), five, any::<bool>()).prop_map(|(mut prob, x0, back, method, analytic_jac)| {
             // slopes are measured on the un-mixed problem or a mildly mixed one; Radau needs the analytic Jacobian
             if prob.blocks.len() > 2 { prob.blocks.truncate(2); }
@@ -769,7 +774,10 @@ pub fn exhaustive() -> Vec<Case> {
     for m in [Meth::RK4, Meth::RK23, Meth::DOPRI5, Meth::DOP853] {
         for neg in [false, true] {
             for (clip, two, dense) in [(false, false, true), (true, false, true), (false, true, true), (false, true, false), (false, false, false)] {
-                v.push(Case::Tableau { method: m, xs: 0, hk: 0, neg, clip, two, dense });
+                v.push(Case::Tableau { method: m, xs: 0, hk: 0, neg, clip, two, dense, nocb: false });
+                if two {
+                    v.push(Case::Tableau { method: m, xs: 0, hk: 0, neg, clip, two, dense, nocb: true });
+                }
             }
         }
     }
